@@ -158,6 +158,13 @@ theorem minified_media (p : Prefs) (hi : p.indent = []) (hl : p.lineSeparator = 
       if !p.keepEmptyRules && allWs texts.flatten then [] else k ++ [32] ++ mt ++ [123] ++ texts.flatten ++ [125] :=
   mediaTail_minified p hi hl hps hs lv k mt texts
 
+/-- the minified preset, applied to the default record, has exactly the layout strings `minified_media` asks for,
+and they are (trivially) white space — the preset is in the domain of T6.2 and T6.4c -/
+theorem minified_preset_layout : ∃ m, useMinified Prefs.default = some m ∧ m.indent = [] ∧ m.lineSeparator = [] ∧
+    m.paranthesisSpacer = [] ∧ m.spacer = [] ∧ m.listItemSpacer = [] ∧ m.propertyNameSpacer = [] ∧
+    m.selectorCombinatorSpacer = [] ∧ m.lineNumbers = false :=
+  ⟨_, rfl, rfl, rfl, rfl, rfl, rfl, rfl, rfl, rfl⟩
+
 /-! ## non-vacuity and the machine-checked findings -/
 
 /-- the layout strings of the minified preset, content preferences as by default -/
